@@ -23,8 +23,9 @@ m(i) for the content mode of the innermost group containing both:
                                b < len ==> child b shares a Sequence with N and N is smaller than it            (b is the *first* such child)
                Err         ==>  some child i conflicts with N (alternative of an exclusive choice, or equal and not repeatable) and no
                                 earlier child ends the scan
-    and no panic: the .unwrap() on the children's lookups needs every existing child to be listed for `version` (precondition
-    kids_listed -- the fact lenient loading does not guarantee, see C12), the unreachable!() on Characters groups is unreachable.
+    and no panic for ANY node: a child that is not listed for `version` (possible after lenient loading) is placed by the versions in
+    which it exists (kid() below) -- the pinned tree unwrapped that lookup and panicked (fix 7212767, see known_findings.json); the
+    unreachable!() on Characters groups is unreachable.
 
 Property lemma lemma_range_is_exact (the sentence of C07): if all children share a Sequence with N and are in specification order,
 then for every position p:  inserting N at p keeps the children in specification order  <==>  a <= p <= b.
@@ -169,17 +170,17 @@ impl ElementRaw {
     // index list of child i (None: character data, or a child that is not listed for the version)
     pub open spec fn kid(&self, i: int, v: u32) -> Option<Seq<usize>> {
         match self.content@[i] {
-            ElementContent::Element(e) => match find_fn(self.elemtype, name_of(e), v) { Some((_, p)) => Some(p@), None => None },
+            ElementContent::Element(e) => match find_fn(self.elemtype, name_of(e), v) {
+                Some((_, p)) => Some(p@),
+                // a child that is not listed for the version (lenient loading) is placed by the version(s) in which it exists
+                None => match find_fn(self.elemtype, name_of(e), u32::MAX) { Some((_, p)) => Some(p@), None => None },
+            },
             ElementContent::CharacterData(_) => None,
         }
     }
     // content mode of the innermost group that contains child i and the new element
     pub open spec fn kmode(&self, n: Seq<usize>, i: int, v: u32) -> Option<ContentMode> {
         match self.kid(i, v) { Some(p) => Some(t_dt(common_group(self.t(), n, p)).mode), None => None }
-    }
-    // every child element is listed for the version (what the .unwrap() on their lookups needs)
-    pub open spec fn kids_listed(&self, v: u32) -> bool {
-        forall|i: int| 0 <= i < self.content@.len() ==> (#[trigger] self.content@[i] matches ElementContent::Element(e) ==> find_fn(self.elemtype, name_of(e), v) is Some)
     }
     pub open spec fn repeat_forbidden(&self, n: Seq<usize>) -> bool {
         resolve(self.t(), n) matches Some((d, _)) && t_el(d as int).multiplicity != ElementMultiplicity::Any
@@ -303,6 +304,8 @@ R39 = [
     (r'AutosarDataError::InvalidPosition\b', lambda m: ERR, 'R39'),
     (r'for \((\w+), (\w+)\) in ((?:\w+\.)*\w+)\.iter\(\)\.enumerate\(\) \{',
      lambda m: 'let mut vx_i: usize = 0; while vx_i < %s.len() { let %s = vx_i; let %s = &%s[vx_i]; vx_i += 1;' % (m.group(3), m.group(1), m.group(2), m.group(3)), 'R18'),
+    (r'let Some\(\(_, existing_element_indices\)\) = elemtype\s*\.find_sub_element\(subelement\.element_name\(\), version as u32\)\s*\.or_else\(\|\| elemtype\.find_sub_element\(subelement\.element_name\(\), u32::MAX\)\)\s*else \{',
+     lambda m: 'let vx_name = subelement.element_name(); let Some((_, existing_element_indices)) = (match elemtype.find_sub_element(vx_name, version as u32) { Some(vx_v) => Some(vx_v), None => elemtype.find_sub_element(vx_name, u32::MAX) }) else {', 'R39'),
     (r'match (\w+)\.cmp\(&(\w+)\) \{', lambda m: 'match vx_lex_cmp(&%s, &%s) {' % (m.group(1), m.group(2)), 'R39'),
     (r'if (new_element_indices) == (existing_element_indices) \{', lambda m: 'if vx_vec_eq(&%s, &%s) {' % (m.group(1), m.group(2)), 'R39'),
     (r'find_common_group\(&(\w+), &(\w+)\)', lambda m: 'find_common_group(%s.as_slice(), %s.as_slice())' % (m.group(1), m.group(2)), 'R39'),
@@ -350,13 +353,12 @@ pub struct AutosarModel { pub opaque: u64 }
 '''
     lf = {f.label: f for f in lookups.fns(sz)}
     TT = 'self.elemtype.typ < n_dt()'
-    KL = 'self.kids_listed(%s)' % V
-    inv = ['vx_i <= self.content@.len()', 'wf_tables()', 'wf_modes()', 'self.elemtype.typ < n_dt()', 'elemtype == self.elemtype', 'self.kids_listed(%s)' % V,
+    inv = ['vx_i <= self.content@.len()', 'wf_tables()', 'wf_modes()', 'self.elemtype.typ < n_dt()', 'elemtype == self.elemtype',
            'find_fn(self.elemtype, element_name, %s) matches Some((_, p)) && p@ == new_element_indices@' % V,
            'hit(self.t(), new_element_indices@, element_name, %s)' % V, 'idx_ok(self.t(), new_element_indices@)', 'new_element_indices@.len() > 0',
            't_dt(self.t()).mode != ContentMode::Characters && t_dt(self.t()).mode != ContentMode::Bag && t_dt(self.t()).mode != ContentMode::Mixed',
            'self.prefix_ok(new_element_indices@, %s, start_pos as int, end_pos as int)' % V]
-    calc = FnSpec('calc_element_insert_range', F, impl=IMPL_R, ret='r', body_sub=R39, requires=[TT, KL],
+    calc = FnSpec('calc_element_insert_range', F, impl=IMPL_R, ret='r', body_sub=R39, requires=[TT],
                   ensures=['self.calc_post(element_name, %s, r)' % V,
                            'r matches Ok((a, b)) ==> a <= b <= self.content@.len()'],
                   loops={0: dict(invariant=inv, invariant_except_break=['end_pos == vx_i'],
@@ -369,7 +371,7 @@ pub struct AutosarModel { pub opaque: u64 }
                           dict(after=r'vx_i \+= 1;', indent=True, text='''proof {
     assert(self.content@[idx as int] == *content_item);
 }'''),
-                          dict(after=r'\.unwrap\(\);', indent=False, text='''proof {
+                          dict(after=r'^\s*continue;\s*\n\s*\};', indent=False, text='''proof {
     assert(self.kid(idx as int, version as u32) == Some(existing_element_indices@));
     lemma_common_group_mode(self.t(), new_element_indices@, existing_element_indices@);
     lemma_lex_eq(new_element_indices@, existing_element_indices@);
@@ -389,11 +391,11 @@ pub struct AutosarModel { pub opaque: u64 }
                   ensures=['final(self).elemname == old(self).elemname && final(self).elemtype == old(self).elemtype',
                            'match r { Ok(e) => name_of(e) == element_name && final(self).content@ == old(self).content@.insert(position as int, ElementContent::Element(e)) '
                            '&& (find_fn(old(self).elemtype, element_name, %s) matches Some((t, _)) && type_of(e) == t), Err(_) => final(self).content@ == old(self).content@ }' % V]),
-           FnSpec('create_sub_element', F, impl=IMPL_R, ret='r', body_sub=R39, requires=['old(self).elemtype.typ < n_dt()', 'old(self).kids_listed(%s)' % V],
+           FnSpec('create_sub_element', F, impl=IMPL_R, ret='r', body_sub=R39, requires=['old(self).elemtype.typ < n_dt()'],
                   ensures=['final(self).elemname == old(self).elemname && final(self).elemtype == old(self).elemtype',
                            'match r { Ok(e) => name_of(e) == element_name && exists|a: usize, b: usize| old(self).calc_post(element_name, %s, Ok((a, b))) && final(self).content@ == old(self).content@.insert(b as int, ElementContent::Element(e)), '
                            'Err(_) => final(self).content@ == old(self).content@ }' % V]),
-           FnSpec('create_sub_element_at', F, impl=IMPL_R, ret='r', body_sub=R39, requires=['old(self).elemtype.typ < n_dt()', 'old(self).kids_listed(%s)' % V],
+           FnSpec('create_sub_element_at', F, impl=IMPL_R, ret='r', body_sub=R39, requires=['old(self).elemtype.typ < n_dt()'],
                   ensures=['final(self).elemname == old(self).elemname && final(self).elemtype == old(self).elemtype',
                            'match r { Ok(e) => name_of(e) == element_name && exists|a: usize, b: usize| old(self).calc_post(element_name, %s, Ok((a, b))) && a <= position <= b && final(self).content@ == old(self).content@.insert(position as int, ElementContent::Element(e)), '
                            'Err(_) => final(self).content@ == old(self).content@ }' % V,
